@@ -25,8 +25,24 @@ def run(ctx):
     F = ctx.F
     pc = ctx.body('db::DbInner::process_commits')
     if pc:
-        dl = named_local(pc, 'defer')
-        ctx.ob('1a defer-flag-anchor', 'anchor', pc.path, 'process_commits keeps the deferral decision in a local named `defer`', len(dl) == 1 and pc.locals[dl[0]] == 'bool', str(dl))
+        # the deferral flag: a bool local assigned only constants whose branch leads (on its set edge) to defer_commit
+        dcs = pc.call_sites('db::DbInner::defer_commit')
+        dl = []
+        for l, ty in enumerate(pc.locals):
+            if ty != 'bool':
+                continue
+            ds = pc.defs().get(l, [])
+            if len(ds) < 2 or not all(d[2] == 'assign' and d[3]['r']['k'] == 'use' and 'i' in d[3]['r']['a'][0] for d in ds):
+                continue
+            if not any(d[3]['r']['a'][0]['i'] == 1 for d in ds):
+                continue
+            for bi in pc.normal_blocks():
+                t = pc.term(bi)
+                if t['k'] == 'switch' and t['vals'] == [0] and op_local(t['a']) is not None and l in backward_slice(pc, [op_place(t['a'])], through_calls=False).locals:
+                    if dcs and all(d in pc.reachable_from([t['ts'][1]], removed={bi}) for d in dcs) and not any(d in pc.reachable_from([t['ts'][0]], removed={bi}) for d in dcs):
+                        dl.append(l)
+        dl = sorted(set(dl))
+        ctx.ob('1a defer-flag-anchor', 'anchor', pc.path, 'process_commits keeps the deferral decision in one boolean flag whose set edge leads to defer_commit', len(dl) == 1, str(dl))
         if len(dl) == 1:
             D = dl[0]
             sets = [(bi, s) for bi in pc.normal_blocks() for s in pc.blocks[bi]['s'] if s['k'] == 'assign' and s['p'] == [D] and s['r']['k'] == 'use' and s['r']['a'][0].get('i') == 1]
@@ -62,6 +78,17 @@ def run(ctx):
         ctx.ob('1g lock-test-in-loop', 'K2-loop-order', pc.path, 'the is_locked test sits in the loop over the node changes of the commit', len(lk) == 1 and lk[0] in pc.reaches(lk[0]), str(lk))
     cc = ctx.body('db::DbInner::commit_changes')
     if cc:
+        ct = cc.call_sites('column::HashColumn::claim_tree_values')
+        um = [bi for bi, t in cc.calls() if call_matches(t, ['re:HashSet.*::insert$']) and '.IndexedChangeSet.used_trees' in lib.receiver_fields(cc, t, 0)]
+        lk = [bi for bi, t in cc.calls() if call_matches(t, ['re:RwLock.*::read$']) and '.DbInner.trees' in lib.receiver_fields(cc, t, 0)]
+        ctx.ob('1h0 marking-anchors', 'anchor', cc.path, 'the InsertTree arm claims the nodes, then scans the registry (trees.read) and marks used trees', len(ct) == 1 and len(um) == 1 and len(lk) >= 1, '%s %s %s' % (ct, um, lk))
+        if ct and lk:
+            lib.must_pass(ctx, '1h every-inserted-tree-is-checked-against-pending-dereferences', cc, [l for l in lk if l in cc.reaches(ct[0])],
+                          'after the nodes of an InsertTree were claimed, every success path scans the pending dereferences / locked readers (no shortcut based on the shape of the new tree: shared nodes can sit at any depth)',
+                          sources=ct)
+        for s2 in um:
+            calls, fields, binops = lib.guard_influences(cc, s2)
+            ctx.ob('1h2 marking-decided-by-reader-lock', 'K3-guard', cc.path, 'a tree is marked as used depending on RwLock::is_locked of its registered reader', any(re.search(r'RwLock.*::is_locked$', c) for c in calls), '')
         inc = [bi for bi, t in cc.calls() if bi in cc.normal_blocks() and call_matches(t, ['re:HashMap.*::insert$']) and '.Trees.to_dereference' in lib.receiver_fields(cc, t, 0)]
         ctx.ob('4b one-increment-per-DereferenceTree', 'anchor', cc.path, 'commit_changes increments to_dereference in one place', len(inc) == 1, str(inc))
         for s in inc:
